@@ -138,3 +138,41 @@ Definition snap (st : Connect.state) : snapshot :=
            (st_ran st)
            (st_fired st)
            (st_next_id (st_calls st)).
+
+(* ---- Part 2, with disconnect callbacks that act on the connection while the loss is handled ----
+
+   b: just before the loss; m: when the connection-level callbacks have run (they may have registered
+   or cancelled callbacks on proxies, whose turn comes next); a: when connectionLost returns.
+   - Every call outstanding at the loss, and every call a callback issued while the loss was handled,
+     has failed with the loss reason (a call for which no 32-bit serial was left failed at once and was
+     never outstanding); no Deferred completes twice; nothing else completed; no pending entry and no
+     timer is left.
+   - No callback had run before.  The callbacks that run are: every connection-level callback
+     registered at the loss, once per registration (whether or not a callback cancels it meanwhile; a
+     connection-level callback registered meanwhile does not run), and every proxy-level callback
+     registered when the connection-level callbacks have finished, once per registration.
+   - connect()'s Deferred is not touched. *)
+Definition on_connection (x : owner * N) : bool :=
+  match fst x with OConn => true | OProxy _ => false end.
+
+Definition on_proxy (x : owner * N) : bool := negb (on_connection x).
+
+Definition with_reason (r : N) (l : list (owner * N)) : list (owner * N * N) :=
+  map (fun x => (fst x, snd x, r)) l.
+
+Definition expected_runs_reentrant (r : N) (b m : snapshot) : list (owner * N * N) :=
+  with_reason r (filter on_connection (sn_registered b) ++ filter on_proxy (sn_registered m)).
+
+Definition loss_reentrant_ok (r : N) (b m a : snapshot) : Prop :=
+  sn_outstanding a = [] /\
+  sn_timers a = [] /\
+  NoDup (map fst (sn_completed a)) /\
+  (forall i, In i (sn_outstanding b) -> In (i, OLost r) (sn_completed a)) /\
+  (forall i, (sn_issued b <= i < sn_issued a)%nat ->
+             In (i, OLost r) (sn_completed a) \/ In (i, OFailed) (sn_completed a)) /\
+  (exists new, sn_completed a = sn_completed b ++ new /\
+               forall x, In x new ->
+                         In (fst x) (sn_outstanding b) \/ (sn_issued b <= fst x < sn_issued a)%nat) /\
+  sn_ran b = [] /\
+  Permutation (sn_ran a) (expected_runs_reentrant r b m) /\
+  sn_fired a = sn_fired b.
